@@ -108,6 +108,15 @@ def add(run, tier):
             want[keys[i][0]] = v
         decide('O-extract[object | keys %r, %r]' % (keys[ks[0]][0], keys[ks[1]][0]), at.ES5Program([bind('var', 'x', at.Object(props))]), {'x': want},
                'object with two properties')
+    # two properties, every pair of value classes: same key (the later one wins, whatever the values) and different keys
+    for v1, v2 in itertools.product(vals[:9], repeat=2):
+        for k1, k2 in (('"k"', '"k"'), ('"k"', '"m"')):
+            props = [at.Assign(left=at.String(k1), op=':', right=Hole(v1)), at.Assign(left=at.String(k2), op=':', right=Hole(v2))]
+            want = {}
+            want[k1[1:-1]] = v1
+            want[k2[1:-1]] = v2
+            decide('O-extract[object | %s: %r, %s: %r]' % (k1, v1, k2, v2), at.ES5Program([bind('var', 'x', at.Object(props))]), {'x': want},
+                   'object {%s: <%r>, %s: <%r>}' % (k1, v1, k2, v2))
     # ---- nesting of composites in composites (one level: the induction step with a composite child built by the real rules)
     inner_arr = lambda v: at.Array([Hole(v)])
     inner_obj = lambda v: at.Object([at.Assign(left=at.String('"k"'), op=':', right=Hole(v))])
